@@ -25,11 +25,11 @@ class TableJob:
     """One TLC exploration of MC.tla whose emitted rows are replayed on the code."""
 
     def __init__(self, name, acts, emit, vals="{1}", hosts='{"0"}', keylen=2, base="<<>>", maxcount=7,
-                 viewacct=False, entrydepth=1, targets=None, workers=8, timeout=1200, root="MC", extra_consts=None,
+                 viewacct=False, entrydepth=1, maxnodes=99, targets=None, workers=8, timeout=1200, root="MC", extra_consts=None,
                  inv=None, props=None):
         self.name, self.acts, self.emit = name, acts, emit
         self.consts = dict(KeyLen=str(keylen), Base=base, Hosts=hosts, Vals=vals, Acts=tset(acts),
-                           MaxCount=str(maxcount), EmitActs=tset(emit),
+                           MaxCount=str(maxcount), MaxNodes=str(maxnodes), EmitActs=tset(emit),
                            ViewAcct="TRUE" if viewacct else "FALSE", EntryDepth=str(entrydepth))
         if extra_consts:
             self.consts.update(extra_consts)
@@ -54,10 +54,10 @@ class PairJob:
     replay_cmd = "replay-pairs"
 
     def __init__(self, name, acts_a, acts_b, pair_acts, max_a, max_b, emit=None, targets=None, hosts='{"0"}',
-                 workers=8, timeout=1800, keylen=2, base="<<>>", vals_a="{1}", vals_b="{2}"):
+                 workers=8, timeout=900, keylen=2, base="<<>>", vals_a="{1}", vals_b="{2}", nodes_a=99, nodes_b=99):
         self.name = name
         self.consts = dict(KeyLen=str(keylen), Base=base, Hosts=hosts, ValsA=vals_a, ValsB=vals_b, ActsA=tset(acts_a),
-                           ActsB=tset(acts_b), PairActs=tset(pair_acts), MaxCountA=str(max_a), MaxCountB=str(max_b),
+                           ActsB=tset(acts_b), PairActs=tset(pair_acts), MaxCountA=str(max_a), MaxCountB=str(max_b), MaxNodesA=str(nodes_a), MaxNodesB=str(nodes_b),
                            EmitActs=tset(pair_acts if emit is None else emit))
         self.targets = targets or [("u32", "map-map", "plain")]
         self.workers, self.timeout = workers, timeout
@@ -131,6 +131,16 @@ def plan(prop, tier):
         return [PairJob(prop.lower() + "_cc", IR, IR, ops, 3, 3, targets=pt),
                 PairJob(prop.lower() + "_lc", IRK, IR, ops, n, 1 if q else 2, targets=pt),
                 PairJob(prop.lower() + "_cl", IR, IRK, ops, 1 if q else 2, n, targets=pt)]
+    if prop == "C18":
+        hostful = [t for t in types if "Cidr" not in t]
+        obs = ["GetKV", "Lpm", "Spm", "Cover", "Children", "Iter", "ViewDesc"]
+        mut = ["Insert", "Remove", "RemoveKeepTree", "RemoveChildren", "Entry", "ViewSet"]
+        IR = ["Insert", "Remove", "RemoveKeepTree"]
+        pops = ["Union", "Inter", "Diff", "CovDiff", "UnionMut"]
+        return [TableJob("c18_u2", mut + obs, mut + obs, hosts='{"0","2"}' if q else '{"0","1","2"}', maxcount=2, maxnodes=3, timeout=600,
+                         targets=targets(hostful) + targets(["u32"], ("set",))),
+                PairJob("c18_pairs", IR, IR, pops, 2, 2, hosts='{"0","2"}', timeout=200, nodes_a=2 if q else 3, nodes_b=2,
+                        targets=[(t, "map-map", "plain") for t in (["u32", "Ipv6Net"] if q else hostful)])]
     if prop == "C15":
         return [TableJob("c15_u2", MUT, MUT, targets=both)]
     if prop == "C16":
@@ -139,7 +149,7 @@ def plan(prop, tier):
 
 
 LEVEL = {p: "model_checking" for p in ["C01", "C02", "C03", "C04", "C05", "C06", "C07", "C08", "C09", "C10", "C11", "C12",
-                                       "C13", "C15", "C16", "C19"]}
+                                       "C13", "C15", "C16", "C18", "C19"]}
 
 
 def run_check(prop, tier):
@@ -186,6 +196,8 @@ def conclude(prop, tier, t0, jobs, tlc_results, reports):
                 mine.append(mm)
             else:
                 foreign += 1
+                if os.environ.get("VERIF_DEBUG") and foreign <= 5:
+                    log("foreign mismatch", sorted(vlib.owners(mm)), json.dumps({k: mm.get(k) for k in ("kind", "ptype", "coll", "h", "e", "expected", "got")})[:1500])
     executed = sum(r.get("executed", 0) for r in reports)
     per_action = {}
     for r in reports:
